@@ -349,7 +349,7 @@ class HWorld (object):
       except RuntimeError as e:
         self.fail("flood-loops", "a frame flooded from switch %d circulates: %s" % (s + 1, e)); return
       got = dict((i, 0) for i in range(len(self.nports)))
-      for (sw, inp, f, ems, missed) in trace[1:]: got[sw] += 1
+      for rec in trace[1:]: got[rec[0]] += 1
       for d in live:
         if d == s:
           if got[d]: self.fail("flood-returns-to-source", "a frame flooded from switch %d comes back to it" % (s + 1)); return
